@@ -93,7 +93,7 @@ CHECKS = {
  'C20': ('Theorems c20_*: for rules well-formed for decompression (typed target values, compute fields with protocol lengths inside a '
          'supported stack shape, bounded static bits) and EVERY bit string shorter than 65000 bytes, decompress returns a buffer; through the '
          'manager: a buffer or RuleIDMatchError. The static bound is shown necessary by a witness. Tie: truncations, bit flips, size '
-         'escapes, random strings through ContextManager.decompress (20 s CPU-time limit per call), empty rule sets included vs extracted model. Byte level: c20_rule_total_bytes.',
+         'escapes, random strings through ContextManager.decompress (20 s CPU-time limit per call), empty rule sets included vs extracted model. Byte level: c20_rule_total_bytes, c20_manager_total_bytes, c20_front_total_bytes (manager and front end on Buffers).',
          'proof of totality (per-function totality lemmas, shape invariant of the compute stage) + model/code correspondence', '7 C20'),
 
  'C12': ('Theorems c12_*: for canonical buffers, mappings with pairwise different values and indices, and objects built from them, '
